@@ -13,5 +13,6 @@ done
 run_benign() { f=$1; shift; tools/scratch_patch.sh $f "$@" > /tmp/selftest.$$ 2>&1; r=$?; if [ $r -eq 0 ]; then echo "quiet    $f ($*)"; else echo "ALARM    $f ($*) exit $r"; rc=1; fi; }
 run_benign selftest/benign/aead-ietf-mac-chunking.diff C01 --only aead.f.chacha20poly1305_ietf
 run_benign selftest/benign/secretstream-skip-empty-ad.diff C09 --only c09.f.pu
+run_benign selftest/benign/pk2curve-mul-order.diff C06 --only c06.f.pk_to_curve25519
 rm -f /tmp/selftest.$$
 exit $rc
